@@ -164,9 +164,21 @@ def plain_rows(rows):
 def signature(item, verdicts):
     """Normal form of a dialect disagreement: dialect, engine error or not, and the SQL node kinds of the statement
     that are specific to how this dialect's translator wrote it."""
+    if item['d'] == 'Oracle' and has_empty_string_literal(item['st']):
+        return 'C02:Oracle:empty-string-literal'
     kinds = sorted(node_kinds(item['st']) - {'COLUMN', 'VALUE', 'AND', 'NONE', 'LIST'})
     err = any(v['err'] for v in verdicts)
     return 'C02:%s:%s:%s' % (item['d'], 'engine-error' if err else 'rows', '+'.join(kinds))
+
+
+def has_empty_string_literal(x):
+    if isinstance(x, dict):
+        return any(has_empty_string_literal(v) for v in x.values())
+    if isinstance(x, list):
+        if len(x) == 2 and x[0] == 'VALUE' and isinstance(x[1], dict) and x[1].get('t') == 'str' and x[1].get('v') == []:
+            return True
+        return any(has_empty_string_literal(y) for y in x)
+    return False
 
 
 def node_kinds(x, acc=None):
@@ -218,7 +230,7 @@ def run(ctx):
             k += 1
 
     stats = {p: {'untranslatable': Counter(), 'unsupported': Counter()} for p in PROVIDERS}
-    items = {p: translate_all(p, work, stats[p]) for p in PROVIDERS}
+    items, jobs = {}, {}
 
     def judge(p):
         chunks = [items[p][i:i + 2500] for i in range(0, len(items[p]), 2500)] or [[]]
@@ -229,7 +241,9 @@ def run(ctx):
             res, _ = tlc.evaluate('DialectJudge', ctx.scratch, inputs=inp, tag='judge-%s-%d' % (p, k))
             out += res
         return out
-    jobs = {p: pool.submit(judge, p) for p in PROVIDERS}
+    for p in PROVIDERS:          # Pony is used from this thread only; the TLC processes run meanwhile
+        items[p] = translate_all(p, work, stats[p])
+        jobs[p] = pool.submit(judge, p)
     real = sqlite_rows(work, datasets)      # real SQLite engine (model validation), while the TLC processes run
     reports = {p: jobs[p].result() for p in PROVIDERS}
     ctx.timing = getattr(ctx, 'timing', {})
